@@ -29,7 +29,10 @@ tTsBad == <<50, 48, 50, 49, 45, 49, 51, 45, 48, 49, 32, 48, 48, 58, 48, 48, 58, 
 tIv == <<49, 58, 50, 58, 51>>                                                                \* 1:2:3
 tSpX == <<32, 120, 9>>                                                                       \* " x<TAB>"
 tZ == <<122>>
-Texts == {<<>>, t12, tNeg3, tPlus5, tPad7, t15, tAbc, tTrue, tTs, tTsBad, tIv, tSpX, MaxText, MaxPlus1Text, MinText, LongDigits, U32WrapText}
+tSpE == <<32, 233, 32>>                                                                      \* " e-acute "
+tE == <<82, 101, 110, 233>>                                                                  \* "Rene-acute": a multi-byte last character
+tCjk == <<26481, 20140, 9>>                                                                  \* two CJK characters and a tab
+Texts == {<<>>, t12, tNeg3, tPlus5, tPad7, t15, tAbc, tTrue, tTs, tTsBad, tIv, tSpX, tSpE, tE, tCjk, MaxText, MaxPlus1Text, MinText, LongDigits, U32WrapText}
 GStates == {NoGroup} \cup {G(x) : x \in Texts}
 
 Groups7(g1, g2, g3) == Match(<<g1, g2, g3, NoGroup, NoGroup, NoGroup, NoGroup>>)
@@ -78,6 +81,15 @@ CasesArrays ==
   \cup {[cols |-> <<[Multi(<<Ref("p", 1), Ref("p", 2)>>, "arr", "int") EXCEPT !.nn = TRUE], One("p", 3, "int")>>, line |-> Line(Groups7(a, NoGroup, G(t12)))] : a \in {NoGroup, G(t12), G(tAbc)}}
   \cup {[cols |-> <<Multi(<<Ref("p", 1), Ref("p", 2)>>, "int", "")>>, line |-> Line(Groups7(G(t12), G(t12), NoGroup))]}
 
+\* (iv-b) array / TIMESTAMP columns whose listed groups come from different patterns
+CasesCross ==
+  {[cols |-> <<Multi(<<Ref("p", 1), Ref("s", 2), Ref("i", 1)>>, "arr", el), Multi(<<Ref("s", 2), Ref("p", 1)>>, "arr", "int")>>,
+    line |-> [inl |-> inl, cap |-> cap, extra |-> ex, doc |-> NoDoc, tag |-> NoGroup, ndk |-> 0]] :
+     el \in {"int", "text"}, inl \in {NoGroup, G(t12)}, cap \in {NoMatch, Groups7(G(tNeg3), NoGroup, NoGroup), Groups7(NoGroup, G(t12), NoGroup)}, ex \in {<<>>, <<t12>>, <<tAbc, t12>>}}
+  \cup {[cols |-> <<[Multi(<<Ref("p", 1), Ref("s", 2), Ref("s", 3)>>, "ts", "") EXCEPT !.def = NoDef]>>,
+         line |-> [inl |-> NoGroup, cap |-> Groups7(G(<<50, 48, 50, 49>>), NoGroup, NoGroup), extra |-> ex, doc |-> NoDoc, tag |-> NoGroup, ndk |-> 0]] :
+          ex \in {<<<<49, 50>>, <<51, 49>>>>, <<<<50>>, <<51, 48>>>>, <<<<74, 117, 110>>, <<55>>>>, <<>>}}
+
 \* (v) split fields, inline pattern, several patterns, a second match later in the line
 SecondMatch == <<80, 58, 65, 60, 57, 57, 62>>     \* "P:A<99>" appearing after the first match
 CasesSplit ==
@@ -116,7 +128,7 @@ CasesJsonPath ==
           ty \in JTypes, m \in JMods, tag \in {NoGroup, G(t12)}, k \in 1..5}
 
 Cases == (IF "types" \in CaseSets THEN CasesTypes ELSE {}) \cup (IF "rows" \in CaseSets THEN CasesRows \cup CasesTwoNotNull ELSE {})
-         \cup (IF "ts" \in CaseSets THEN CasesTs ELSE {}) \cup (IF "arrays" \in CaseSets THEN CasesArrays ELSE {})
+         \cup (IF "ts" \in CaseSets THEN CasesTs ELSE {}) \cup (IF "arrays" \in CaseSets THEN CasesArrays \cup CasesCross ELSE {})
          \cup (IF "split" \in CaseSets THEN CasesSplit ELSE {})
          \cup (IF "jsonleaf" \in CaseSets THEN CasesJsonLeaf ELSE {}) \cup (IF "jsonpath" \in CaseSets THEN CasesJsonPath ELSE {})
 
